@@ -9,7 +9,8 @@ From Coq Require Import List Ascii ZArith Bool.
 From CGV Require Import Base.PyBase Base.PyVal Gen.FragGen Dialect.DialectImpl Frag.NDict Frag.StripImpl Frag.FragText
      Frag.StripFacts Frag.FragProofs Frag.FragTextX Frag.FragProofsX Frag.FragStages Frag.FragSmall Frag.RingProofs
      Gen.SmilesGen Frag.SmilesParse Frag.SmilesSpec Frag.SmilesProofs Frag.SmilesIndex Frag.SmilesRelabel Frag.SmilesPerm
-     Frag.Template Frag.TemplateProofs Frag.TemplateFinal Frag.TemplateGraph Frag.TemplateCompose Frag.SmilesReverse Frag.SmilesPermR.
+     Frag.Template Frag.TemplateProofs Frag.TemplateFinal Frag.TemplateGraph Frag.TemplateCompose Frag.SmilesReverse Frag.SmilesPermR
+     Frag.SmilesReroot.
 From CGV Require Import Base.NxGraph Compose.CutModel Compose.CutSpecDefs.
 Local Open Scope nat_scope.
 Import ListNotations.
@@ -389,6 +390,67 @@ Example C01_start_atom_nonvacuous :
   exists G H, graph_of false (chain_toks rv_chain) = Ok G /\ graph_of false (chain_toks (rev_chain rv_chain)) = Ok H /\
     g_edges G = [(0, 1, VInt 2); (1, 2, VInt 1); (2, 3, VInt 1)] /\ g_edges H = [(0, 1, VInt 1); (1, 2, VInt 1); (2, 3, VInt 2)].
 Proof. exact reverse_example. Qed.
+(** text level of C01, start atom of BRANCHED fragments: the re-rooting step along one bond.  The text
+    a P [b] x R  (first atom a, its branches P = any sequence of parenthesised groups [blocksb], the optional
+    bond symbol b, the next atom x, the rest R) and the text  x ( [b] a P ) R  written from the neighbour x
+    denote the same graph up to the rotation [rot m] (a: 0 -> 1, the m-1 atoms of P: i -> i+1, x: m -> 0,
+    atoms of R fixed), bonds taken as undirected ([graph_uperm]: node attributes at permuted positions, the
+    bond lists with orders equal as multisets after renaming and ordering the two ends); both fail alike.
+    P and R may contain ring-bond markers, also ring bonds from P into R.  Partial: the neighbour is the
+    first atom of the tail (a neighbour inside a branch needs [C01_branch_order_partial] first) *)
+Theorem C01_start_atom_reroot_partial : forall a P b x R,
+  is_atomtok a = true -> is_atomtok x = true -> blocksb false 0 P = true ->
+  let s := rot (Datatypes.S (count_atoms P)) in
+  match graph_of false (rr_src a P b x R), graph_of false (rr_dst a P b x R) with
+  | Ok G, Ok H => exists n, graph_uperm s n G H /\ sigma_ok s n
+  | Err e, Err e' => e = e'
+  | _, _ => False
+  end.
+Proof. exact reroot_step. Qed.
+Theorem C01_start_atom_reroot_text_partial : forall a P b x R,
+  wf_smiles (rr_src a P b x R) = true -> wf_smiles (rr_dst a P b x R) = true ->
+  is_atomtok a = true -> is_atomtok x = true -> blocksb false 0 P = true ->
+  let s := rot (Datatypes.S (count_atoms P)) in
+  match smiles_parse (render_smiles false (rr_src a P b x R)), smiles_parse (render_smiles false (rr_dst a P b x R)) with
+  | Ok G, Ok H => exists n, graph_uperm s n G H /\ sigma_ok s n
+  | Err e, Err e' => e = e'
+  | _, _ => False
+  end.
+Proof. exact reroot_step_text. Qed.
+(** iterated along the main chain: [reroot_n k] performs k such steps on the token list (each step finds
+    the leading groups by [take_blocks]) and returns the composed permutation; the (k+1)-th atom of the
+    main chain becomes the first atom *)
+Theorem C01_start_atom_path_partial : forall k w w' s, reroot_n k w = Some (w', s) ->
+  graphs_rel s (graph_of false w) (graph_of false w').
+Proof. exact reroot_n_sound. Qed.
+(** the tools behind it: the permutation simulation for undirected bonds, along every continuation;
+    related graphs compose *)
+Theorem C01_permutation_simulation_undirected : forall s toks g h, sigma_ok s (q_n g) -> PSimU s g h ->
+  match grun false g toks, grun false h toks with
+  | Ok g1, Ok h1 => PSimU s g1 h1 /\ sigma_ok s (q_n g1)
+  | Err e, Err e' => e = e'
+  | _, _ => False
+  end.
+Proof. exact grun_psimu. Qed.
+Theorem C01_graphs_rel_trans : forall s s' r1 r2 r3,
+  graphs_rel s r1 r2 -> graphs_rel s' r2 r3 -> graphs_rel (sigma_comp s' s) r1 r3.
+Proof. exact graphs_rel_trans. Qed.
+Example C01_start_atom_reroot_nonvacuous :
+  to_string (render_smiles false rr_w) = "CC(F)(C=O)N[NH3+]"%string /\ wf_smiles rr_w = true /\
+  match reroot1 rr_w with
+  | Some (w1, m) => m = 1 /\ to_string (render_smiles false w1) = "C(C)(F)(C=O)N[NH3+]"%string /\ wf_smiles w1 = true
+  | None => False
+  end /\
+  match reroot_n 3 rr_w with
+  | Some (w3, s) =>
+      to_string (render_smiles false w3) = "[NH3+](N(C(C)(F)(C=O)))"%string /\ wf_smiles w3 = true /\
+      map s [0; 1; 2; 3; 4; 5; 6] = [3; 2; 4; 5; 6; 1; 0] /\
+      exists G H, graph_of false rr_w = Ok G /\ graph_of false w3 = Ok H /\ length (g_nodes G) = 7 /\
+        g_edges G = [(0, 1, VInt 1); (1, 2, VInt 1); (1, 3, VInt 1); (3, 4, VInt 2); (1, 5, VInt 1); (5, 6, VInt 1)] /\
+        g_edges H = [(0, 1, VInt 1); (1, 2, VInt 1); (2, 3, VInt 1); (2, 4, VInt 1); (2, 5, VInt 1); (5, 6, VInt 2)]
+  | None => False
+  end /\ reroot_n 4 rr_w = None.
+Proof. exact reroot_example. Qed.
 (** the documented bond orders are the ones of the installed pysmiles *)
 Theorem C13_smiles_orders : forall b, smiles_bond_to_order_lookup [bchar b] = Ok (border b).
 Proof. exact smiles_order_bchar. Qed.
@@ -417,3 +479,6 @@ Print Assumptions C13_template_is_template_partial.
 Print Assumptions C13_template_is_template_checked.
 Print Assumptions C01_start_atom_chain_partial.
 Print Assumptions C01_branch_order_rings_partial.
+Print Assumptions C01_start_atom_reroot_partial.
+Print Assumptions C01_start_atom_reroot_text_partial.
+Print Assumptions C01_start_atom_path_partial.
